@@ -74,10 +74,10 @@ class Sched:
         self.go = threading.Semaphore(0)
         self.done = threading.Semaphore(0)
         self.point = None
-        self.rx_ident = None
+        self.rx_thread = None      # the Thread object (idents are reused once a thread has ended)
 
     def yield_point(self, name):
-        if threading.get_ident() != self.rx_ident:
+        if threading.current_thread() is not self.rx_thread:
             return
         self.point = name
         self.done.release()
@@ -156,7 +156,7 @@ def run_socket_case(c):
                 orig_task = conn.rxthread_task
 
                 def task():
-                    S.rx_ident = threading.get_ident()
+                    S.rx_thread = threading.current_thread()
                     orig_task()
                 conn.rxthread_task = task
                 S.point = None
@@ -210,7 +210,7 @@ def run_socket_case(c):
                 q.append(queue.Queue.get(conn.rxqueue, block=False))
             except queue.Empty:
                 break
-        res = out + [ts, enc_bool(conn.is_open()), len(q)] + [x for f in q for x in enc_bytes(f)]
+        res = out + [ts, enc_bool(conn.is_open()), len(q)] + [x for f in q for x in (enc_bytes(f) if isinstance(f, (bytes, bytearray)) else [-1])]
         # let the thread finish so that no thread leaks
         conn.exit_requested = True
         for _ in range(6):
@@ -366,6 +366,21 @@ def oracle(c, r):
                     i += 1
             else:
                 i += 1
+        # an open connection with nothing to deliver times out: it neither raises nor returns something
+        is_open, k = False, 0
+        for st in c.ints[1:]:
+            if st == STEP_OPEN:
+                is_open = True
+            elif st == STEP_CLOSE:
+                is_open = False
+            if st == STEP_GET:
+                if r[k] == 3 and is_open:
+                    return ('raise-on-open', 'wait_frame on an open connection raised instead of timing out or delivering')
+                k += (2 + r[k + 1]) if r[k] == 1 else 1
+            else:
+                k += 1
+        if r[i + 2] and -1 in r[i + 3:i + 4]:
+            return ('invented', 'the reception queue holds something the peer never sent')
         if c.ints[0] == 0 and delivered != sent[:len(delivered)]:
             return ('fifo', 'delivered %r, the peer sent %r' % ([d.hex() for d in delivered], [s.hex() for s in sent]))
         nq = r[i + 2]
